@@ -272,7 +272,11 @@ func (p *poller) readWriteLoop() {
 						} else {
 							c.onConnected(c, nil)
 							c.onConnected = nil
+							// the callback may have left data to be
+							// flushed: resetRead keeps the writing event then.
+							c.mux.Lock()
 							c.resetRead()
+							c.mux.Unlock()
 						}
 					}
 
